@@ -153,6 +153,13 @@ def search(chk, broken):
         snap = copy.deepcopy(tab_in)
         snap_pts = [(p.BC, p.Mach) for p in pts]
         order_in = [id(p) for p in pts]
+        hist = ''
+        if rng.random() < 0.5:
+            # a session builds several models: the previous one shared the table, the projectile data and the Mach positions of the points
+            # with this one and differed only in the BC values (a re-fit) — it must not influence this one
+            decoy = [pbc.BCPoint(p.BC * rng.uniform(0.5, 1.5), Mach=p.Mach) for p in pts]
+            pbc.DragModelMultiBC(decoy, copy.deepcopy(table), w, d)
+            hist = ' (built right after a model with the same table and Mach positions but other BC values)'
         dm = pbc.DragModelMultiBC(pts, tab_in, w, d)
         evals += 1
         # --- inputs intact
@@ -190,8 +197,8 @@ def search(chk, broken):
             if row.Mach != m or abs(eff - exp) > 1e-9 * exp:
                 if len({x for x, _ in spec}) < len(spec):
                     continue  # duplicate Mach values: the interpolant is not defined by the statement
-                chk.failures.append(Failure('effective-bc', f'Mach {m}: effective BC {eff} but interpolated BC {exp}',
-                                            {'op': 'mbc-law', 'points': spec, 'mach': m, 'observed': eff, 'expected': exp}))
+                chk.failures.append(Failure('effective-bc', f'Mach {m}: effective BC {eff} but interpolated BC {exp}{hist}',
+                                            {'op': 'mbc-law', 'points': spec, 'mach': m, 'observed': eff, 'expected': exp, 'history': hist.strip()}))
                 break
         # --- single point == plain model
         if len(pts) == 1 and not wd:
